@@ -226,6 +226,12 @@ func c04RunOpt(e *Env, tr string, faults bool, audit bool) {
 	var dn *DNet
 	var sa, sb *SimConn
 	ackTO := 2 * time.Second
+	// request slots: switched off, or the defaults of the configuration (one request at a time, NSTART 1)
+	slots, nstart := int64(0), uint32(16)
+	if t.Chance(1, 3) {
+		slots, nstart = 1, 1
+		e.Probe("config.defaultRequestSlots")
+	}
 	addrA, addrB := UDPAddr("10.0.0.1", 5000), UDPAddr("10.0.0.2", 5683)
 	var nf NetFaults
 	if tr == TrUDP {
@@ -237,7 +243,8 @@ func c04RunOpt(e *Env, tr string, faults bool, audit bool) {
 			cfg.BlockwiseTransferTimeout = 5 * time.Second
 			cfg.TransmissionAcknowledgeTimeout = ackTO
 			cfg.TransmissionMaxRetransmit = 4
-			cfg.TransmissionNStart = 16
+			cfg.TransmissionNStart = nstart
+			cfg.LimitClientParallelRequests, cfg.LimitClientEndpointParallelRequests = slots, slots
 			options.WithMux(r).UDPClientApply(&cfg)
 			return cfg
 		}
@@ -260,7 +267,7 @@ func c04RunOpt(e *Env, tr string, faults bool, audit bool) {
 		sa, sb = NewStream(e, TCPAddr("10.0.0.1", 40000), TCPAddr("10.0.0.2", 5683))
 		mkOpts := func(szx blockwise.SZX, r *mux.Router, max uint32) []tcp.Option {
 			return []tcp.Option{options.WithMux(r), options.WithBlockwise(true, szx, 5*time.Second), options.WithCloseSocket(),
-				options.WithLimitClientParallelRequest(0), options.WithLimitClientEndpointParallelRequest(0), options.WithMaxMessageSize(max)}
+				options.WithLimitClientParallelRequest(slots), options.WithLimitClientEndpointParallelRequest(slots), options.WithMaxMessageSize(max)}
 		}
 		epA, errA := NewTCPEndpoint(e, sa, TCPEndpointCfg{Opts: mkOpts(szxA, rA, maxA)})
 		epB, errB := NewTCPEndpoint(e, sb, TCPEndpointCfg{Opts: mkOpts(szxB, rB, maxB)})
@@ -415,7 +422,9 @@ func c04RunOpt(e *Env, tr string, faults bool, audit bool) {
 			if x.intruder != nil && !x.intruder.Done() {
 				allDone = false
 			}
-			if !x.call.Done() && x.ownToken != nil && x.intruder == nil {
+			// (not with request slots: both calls may be queued, run one after the other and re-use the token
+			// sequentially - with duplicated answers in flight that is C03's known finding, not a block-wise matter)
+			if slots == 0 && !x.call.Done() && x.ownToken != nil && x.intruder == nil {
 				evs = append(evs, Event{Label: "same-token", W: 2, Do: func() {
 					// refused at once, or - when the upload happens to be over already - an ordinary small exchange
 					x.intruder = e.NewCall(fmt.Sprintf("sametoken%d", x.nonce), 50+x.nonce, nil, 30*time.Second)
